@@ -246,3 +246,113 @@ pub proof fn lemma_get_eq_enc(a: GetConsumerOffset, b: GetConsumerOffset)
 {
     assert(enc_get(a) =~= enc_get(b));
 }
+
+// ---- CreateStream:  stream_id:u32 (0 = none) | name_length:u8 | name[name_length] ------------------------------------------
+pub open spec fn opt_wire(p: Option<u32>) -> u32 { match p { Some(x) => x, None => 0 } }
+pub open spec fn name_valid(n: Seq<u8>) -> bool { 1 <= n.len() <= 255 }
+pub open spec fn enc_name8(n: Seq<u8>) -> Seq<u8> { seq![n.len() as u8] + n }
+
+pub open spec fn enc_create_stream(m: CreateStream) -> Seq<u8> { le32(opt_wire(m.stream_id)) + enc_name8(m.name@) }
+pub open spec fn create_stream_valid(m: CreateStream) -> bool { m.stream_id != Some(0u32) && name_valid(m.name@) }
+pub open spec fn create_stream_eq(a: CreateStream, b: CreateStream) -> bool { a.stream_id == b.stream_id && a.name@ == b.name@ }
+
+pub proof fn lemma_create_stream_layout(v: CreateStream)
+    requires name_valid(v.name@),
+    ensures
+        ({
+            let b = enc_create_stream(v);
+            &&& b.len() == 5 + v.name@.len()
+            &&& b.subrange(0, 4) == le32(opt_wire(v.stream_id))
+            &&& b[4] == v.name@.len()
+            &&& b.subrange(5, 5 + v.name@.len() as int) == v.name@
+        }),
+{
+    lemma_le_facts();
+    let b = enc_create_stream(v);
+    assert(b.subrange(0, 4) =~= le32(opt_wire(v.stream_id)));
+    assert(b.subrange(5, 5 + v.name@.len() as int) =~= v.name@);
+}
+pub proof fn lemma_create_stream_injective(a: CreateStream, b: CreateStream)
+    requires create_stream_valid(a), create_stream_valid(b), enc_create_stream(a) == enc_create_stream(b),
+    ensures create_stream_eq(a, b),
+{
+    lemma_le_facts();
+    lemma_create_stream_layout(a);
+    lemma_create_stream_layout(b);
+    assert(un_le32(le32(opt_wire(a.stream_id))) == un_le32(le32(opt_wire(b.stream_id))));
+}
+
+// ---- CreateConsumerGroup:  stream Identifier | topic Identifier | group_id:u32 (0 = none) | name_length:u8 | name ------------
+pub open spec fn ccg_tail(g: Option<u32>, n: Seq<u8>) -> Seq<u8> { le32(opt_wire(g)) + enc_name8(n) }
+pub open spec fn enc_ccg(m: CreateConsumerGroup) -> Seq<u8> {
+    enc_identifier(m.stream_id) + (enc_identifier(m.topic_id) + ccg_tail(m.group_id, m.name@))
+}
+pub open spec fn ccg_valid(m: CreateConsumerGroup) -> bool {
+    id_valid(m.stream_id) && id_valid(m.topic_id) && m.group_id != Some(0u32) && name_valid(m.name@)
+}
+pub open spec fn ccg_eq(a: CreateConsumerGroup, b: CreateConsumerGroup) -> bool {
+    id_eq(a.stream_id, b.stream_id) && id_eq(a.topic_id, b.topic_id) && a.group_id == b.group_id && a.name@ == b.name@
+}
+pub proof fn lemma_ccg_tail_layout(g: Option<u32>, n: Seq<u8>)
+    requires name_valid(n),
+    ensures
+        ({
+            let t = ccg_tail(g, n);
+            &&& t.len() == 5 + n.len()
+            &&& t.subrange(0, 4) == le32(opt_wire(g))
+            &&& t[4] == n.len()
+            &&& t.subrange(5, 5 + n.len() as int) == n
+        }),
+{
+    lemma_le_facts();
+    let t = ccg_tail(g, n);
+    assert(t.subrange(0, 4) =~= le32(opt_wire(g)));
+    assert(t.subrange(5, 5 + n.len() as int) =~= n);
+}
+pub proof fn lemma_ccg_layout(v: CreateConsumerGroup)
+    requires name_valid(v.name@),
+    ensures
+        ({
+            let b = enc_ccg(v);
+            let p1 = 2 + v.stream_id.value@.len() as int;
+            let p2 = p1 + 2 + v.topic_id.value@.len() as int;
+            &&& b.len() == p2 + 5 + v.name@.len()
+            &&& b == enc_identifier(v.stream_id) + (enc_identifier(v.topic_id) + ccg_tail(v.group_id, v.name@))
+            &&& b.subrange(p1, b.len() as int) == enc_identifier(v.topic_id) + ccg_tail(v.group_id, v.name@)
+            &&& b.subrange(p2, p2 + 4) == le32(opt_wire(v.group_id))
+            &&& b[p2 + 4] == v.name@.len()
+            &&& b.subrange(p2 + 5, p2 + 5 + v.name@.len() as int) == v.name@
+        }),
+{
+    let b = enc_ccg(v);
+    let t = ccg_tail(v.group_id, v.name@);
+    let p1 = 2 + v.stream_id.value@.len() as int;
+    let p2 = p1 + 2 + v.topic_id.value@.len() as int;
+    lemma_ccg_tail_layout(v.group_id, v.name@);
+    lemma_identifier_layout(v.stream_id, enc_identifier(v.topic_id) + t);
+    lemma_identifier_layout(v.topic_id, t);
+    assert(b.subrange(p1, b.len() as int) =~= enc_identifier(v.topic_id) + t);
+    assert(b.subrange(p2, b.len() as int) =~= t);
+    assert(b.subrange(p2, p2 + 4) =~= t.subrange(0, 4));
+    assert(b[p2 + 4] == t[4]);
+    assert(b.subrange(p2 + 5, p2 + 5 + v.name@.len() as int) =~= t.subrange(5, 5 + v.name@.len() as int));
+}
+pub proof fn lemma_ccg_injective(a: CreateConsumerGroup, b: CreateConsumerGroup)
+    requires ccg_valid(a), ccg_valid(b), enc_ccg(a) == enc_ccg(b),
+    ensures ccg_eq(a, b),
+{
+    lemma_le_facts();
+    let ta = ccg_tail(a.group_id, a.name@);
+    let tb = ccg_tail(b.group_id, b.name@);
+    lemma_identifier_prefix_free(a.stream_id, enc_identifier(a.topic_id) + ta, b.stream_id, enc_identifier(b.topic_id) + tb);
+    lemma_identifier_prefix_free(a.topic_id, ta, b.topic_id, tb);
+    lemma_ccg_tail_layout(a.group_id, a.name@);
+    lemma_ccg_tail_layout(b.group_id, b.name@);
+    assert(un_le32(le32(opt_wire(a.group_id))) == un_le32(le32(opt_wire(b.group_id))));
+}
+pub proof fn lemma_ccg_eq_enc(a: CreateConsumerGroup, b: CreateConsumerGroup)
+    requires ccg_eq(a, b),
+    ensures enc_ccg(a) == enc_ccg(b), ccg_valid(a) == ccg_valid(b),
+{
+    assert(enc_ccg(a) =~= enc_ccg(b));
+}
